@@ -977,7 +977,7 @@ def _name_sets(r, pl, mods, kernel2d):
 REUSE_VARIANTS = ["base", "param", "width", "npts", "nsigmas", "type", "cutoff", "magnetic"]
 REUSE_QUICK = [["sphere", "1d"], ["cylinder", "2d"]]
 REUSE_THOROUGH = REUSE_QUICK + [["sphere", "2d"], ["core_shell_sphere", "1d"], ["core_multi_shell", "2d"],
-                                ["hardsphere", "1d"], ["ellipsoid", "2d"], ["parallelepiped", "1d"]]
+                                ["lamellar", "1d"], ["ellipsoid", "2d"], ["parallelepiped", "1d"]]
 REUSE_INTERFACES = ["call_kernel", "DirectModel", "bumps", "sasview", "sasview-set_dispersion", "Iq"]
 
 
